@@ -31,6 +31,7 @@ import TwProofs.Lemmas.TextMixed
 import TwProofs.Lemmas.TextCmp
 import TwProofs.Lemmas.TextTernary2
 import TwProofs.Lemmas.TextParenInt
+import TwProofs.Lemmas.TextAround
 import TwProofs.Lemmas.TextVars
 
 namespace Tw.C01
@@ -822,6 +823,80 @@ theorem redundant_parentheses_change_nothing_from_source (custom : List ((VType 
   simp only [evalExpr, Res.bind_ok]
   rw [evalProg_nil]
   simp [resToOut, Val.toStr]
+
+/-- **`Total: {{ 6 * 7 }}.`: an arithmetic expression between two runs of text, from the source bytes on**:
+    `pre {{ a op b }} post` — any two runs of text with escapes, any of the five arithmetic operators, any
+    white space inside the braces — renders the text of `pre`, the value of `a op b`, the text of `post`
+    (`text_code_text` with the instance for `a op b`). -/
+theorem int_arithmetic_prints_in_text (custom : List ((VType × Bytes) × Nat)) (data : List (Bytes × GoVal)) (env : Env)
+    (h : envFromMap data = .ok env) (a b' : Bytes) (ha : isDigits a) (hbd : isDigits b') (hba : digitsToNat a < 2 ^ 63)
+    (hbb : digitsToNat b' < 2 ^ 63) (c : Byte) (ty : TT) (pr : Nat) (hop : ArithOp c ty pr)
+    (g1 g2 g3 g4 : Bytes) (hg1 : allWs g1) (hg2 : allWs g2) (hg3 : allWs g3) (hg4 : allWs g4) (v : Val)
+    (hv : ∀ line, intInfix [c] (Int64.ofNat (digitsToNat a)) (Int64.ofNat (digitsToNat b')) line = .ok v)
+    (pre post : List Seg) (hitems : GItemsOK [.text pre, .code (arith2Code g1 a g3 c ty g4 b' g2), .text post]) :
+    evaluateStringPure custom (segsSrc pre ++ (arithSrc g1 a g3 c g4 b' g2 ++ segsSrc post)) data = .ok (segsLit pre ++ v.toStr ++ segsLit post) := by
+  obtain ⟨_, _, _, _, _, _, _, _, _, f10, f11, _⟩ := hop.facts
+  have hone : OneStmt (arith2Code g1 a g3 c ty g4 b' g2) env { custom := custom } v.toStr := by
+    refine ⟨arith2Code_ok g1 a g3 c ty g4 b' g2 hg1 hg2 hg3 hg4 ha hbd pr hop, by simp [arith2Code, arithKeys], ?_, ?_, ?_⟩
+    · intro g toks tn rest hkeys hcl
+      have hk' : toks.map key = arithKeys a c ty b' := hkeys
+      match toks, hk' with
+      | [], hk' => simp [arithKeys] at hk'
+      | [_], hk' => simp [arithKeys] at hk'
+      | [_, _], hk' => simp [arithKeys] at hk'
+      | [_, _, _], hk' => simp [arithKeys] at hk'
+      | [_, _, _, _], hk' => simp [arithKeys] at hk'
+      | _ :: _ :: _ :: _ :: _ :: _ :: _, hk' => simp [arithKeys] at hk'
+      | [t1, t2, t3, t4, t5], hk' =>
+        simp only [arithKeys, List.map_cons, List.map_nil, List.cons.injEq, and_true] at hk'
+        obtain ⟨hk1, hk2, hk3, hk4, hk5⟩ := hk'
+        have ty1 : t1.ty = .LBRACES := congrArg Prod.fst hk1
+        have ty2 : t2.ty = .INT := congrArg Prod.fst hk2
+        have lit2 : t2.lit = a := congrArg Prod.snd hk2
+        have ty3 : t3.ty = ty := congrArg Prod.fst hk3
+        have lit3 : t3.lit = [c] := congrArg Prod.snd hk3
+        have ty4 : t4.ty = .INT := congrArg Prod.fst hk4
+        have lit4 : t4.lit = b' := congrArg Prod.snd hk4
+        have ty5 : t5.ty = .RBRACES := congrArg Prod.fst hk5
+        refine ⟨.expr t4 (.inf t3 t3.lit (.int t2 (Int64.ofNat (digitsToNat a))) (.int t4 (Int64.ofNat (digitsToNat b')))), t5, ?_,
+          by rw [ty5]; decide, rfl, ?_⟩
+        · have := parse_arith2_stmt (g + 15) t1 t2 t3 t4 t5 (tn :: rest) _ _ c ty pr hop ty1 ty2 ty3 ty4 ty5
+            (by rw [lit2]; exact parseInt64_digits a ha (by omega)) (by rw [lit4]; exact parseInt64_digits b' hbd (by omega)) hcl
+          simpa [arith2Code, arithKeys] using this
+        · intro fu
+          rw [show fu + 8 = (fu + 5) + 1 + 1 + 1 from by omega, evalStmt_succ]
+          simp only [stmtBody, calleesAt_expr]
+          simp only [evalExpr, infixOp, Val.type, lit3, hv, show (VType.INTEGER != VType.INTEGER) = false from by decide, Bool.false_eq_true, if_false,
+            Res.bind_ok]
+    · intro toks hkeys
+      have hk' : toks.map key = arithKeys a c ty b' := hkeys
+      cases toks with
+      | nil => simp [arithKeys] at hk'
+      | cons t r =>
+        have : key t = (.LBRACES, [123, 123]) := by simpa [arithKeys] using (List.cons.inj hk').1
+        have tyy : t.ty = .LBRACES := congrArg Prod.fst this
+        exact ⟨t, r, rfl, by rw [tyy]; decide, by rw [tyy]; decide⟩
+    · intro x hx
+      simp only [arith2Code, arithKeys, List.mem_cons, List.mem_nil_iff, or_false] at hx
+      rcases hx with rfl | rfl | rfl | rfl | rfl
+      · simp
+      · simp
+      · exact f10
+      · simp
+      · simp
+  exact text_code_text custom pre post (arith2Code g1 a g3 c ty g4 b' g2) data env h v.toStr hone hitems
+
+example : evaluateStringPure [] (b "Total: {{ 6 * 7 }}.") [] = .ok (b "Total: 42.") := by
+  have hop : ArithOp 42 .MUL PRODUCT := Or.inl ⟨Or.inl ⟨rfl, rfl⟩, rfl⟩
+  have hitems : GItemsOK [.text [.plain (b "Total: ")], .code (arith2Code [32] (b "6") [32] 42 .MUL [32] (b "7") [32]), .text [.plain (b ".")]] :=
+    ⟨by decide, by decide, by simp only [afterRunG]; decide,
+      arith2Code_ok [32] (b "6") [32] 42 .MUL [32] (b "7") [32] (by decide) (by decide) (by decide) (by decide) (by decide) (by decide) PRODUCT hop,
+      by decide, by decide, trivial, trivial⟩
+  have := int_arithmetic_prints_in_text [] [] [[]] (by rfl) (b "6") (b "7") (by decide) (by decide) (by decide) (by decide) 42 .MUL PRODUCT hop
+    [32] [32] [32] [32] (by decide) (by decide) (by decide) (by decide) (.int 42) (fun _ => by rfl) [.plain (b "Total: ")] [.plain (b ".")] hitems
+  have hs : segsSrc [.plain (b "Total: ")] ++ (arithSrc [32] (b "6") [32] 42 [32] (b "7") [32] ++ segsSrc [.plain (b ".")]) = b "Total: {{ 6 * 7 }}." := by decide
+  rw [hs] at this
+  rw [this]; rfl
 
 example : evaluateStringPure [] (b "{{ 010 }}") [] = .ok (b "10") := by
   have := int_literal_prints_from_source [] [] [[]] (by rfl) (b "010") (by decide) (by decide) [32] [32] (by decide) (by decide)
